@@ -218,12 +218,28 @@ def h_tag_string_lemma():
         # the statement from_json executes on the tag - taken from the REAL ast of from_json (the first assignment that splits a
         # string), not from a copy: the tag variable and the two targets are whatever the repository calls them
         fj = vm.loader.cls(JS, "SubclassJSONSerializer").methods["from_json"]
-        stmt = None
-        for node in ast.walk(fj.node):
-            if isinstance(node, ast.Assign) and isinstance(node.value, ast.Call) and isinstance(node.value.func, ast.Attribute) \
-                    and "split" in node.value.func.attr and isinstance(node.value.func.value, ast.Name):
-                stmt = node
-                break
+        # ... in from_json itself or in a helper of the module it calls (by name, transitively): where the statement lives is not
+        # part of the property
+        mod = vm.loader.module(JS)
+        by_name = dict(mod.functions)
+        for c_ in mod.classes.values():
+            for n_, f_ in c_.methods.items():
+                by_name.setdefault(n_, f_)
+        stmt, todo, seen = None, [fj], set()
+        while todo and stmt is None:
+            f_ = todo.pop(0)
+            if id(f_) in seen:
+                continue
+            seen.add(id(f_))
+            for node in ast.walk(f_.node):
+                if isinstance(node, ast.Assign) and isinstance(node.value, ast.Call) and isinstance(node.value.func, ast.Attribute) \
+                        and "split" in node.value.func.attr and isinstance(node.value.func.value, ast.Name):
+                    stmt = node
+                    break
+                if isinstance(node, ast.Call):
+                    callee = node.func.id if isinstance(node.func, ast.Name) else (node.func.attr if isinstance(node.func, ast.Attribute) else None)
+                    if callee in by_name:
+                        todo.append(by_name[callee])
         if stmt is None:
             ctx.fail("from_json::tag-splits-back-into-module-and-class-name", detail="no string-splitting assignment found in from_json")
             return
